@@ -162,3 +162,16 @@
         }
         assert!(m > 5000, "{m}");
     }
+
+    // listed known finding: output captured under JSON auto-escaping is marked safe and later printed under HTML auto-escaping
+//# ob name=json_capture_under_html_native role=native_bounded fn=output::Output::end_capture+vm::macro_object kind=bounded bound="2 templates named *.html: a set-block and a macro result captured inside {% autoescape 'json' %} and printed after the block, data string <b>'" stmt="the characters < > \" ' from context data never appear raw in the output of an *.html template that uses no safe-marking construct - also when the value passed through a capture made while another escape format was in effect"
+    fn json_capture_under_html_native() {
+        use crate::Environment;
+        let env = Environment::new();
+        for src in ["{% autoescape 'json' %}{% set x %}{{ v }}{% endset %}{% endautoescape %}{{ x }}",
+                    "{% macro m(a) %}{{ a }}{% endmacro %}{% autoescape 'json' %}{% set x = m(v) %}{% endautoescape %}{{ x }}"] {
+            let out = env.render_named_str("a.html", src, crate::context! { v => "<b>'" }).unwrap();
+            for ch in ['<', '>', '\''] { assert!(!out.contains(ch), "raw {ch:?} from data in the output of {src:?}: {out:?}"); }
+        }
+    }
+
